@@ -52,8 +52,9 @@ func (idx *index) insert(ctx context.Context, p pointer, persist bool) error {
 		} else if !idx.beforeFirst(p.End) {
 			i, overlap := idx.unprotectedSearch(p.TimeRange)
 			if overlap {
+				conflict := idx.mu.pointers[i].TimeRange
 				idx.mu.Unlock()
-				return span.Error(NewRangeWriteConflictError(p.TimeRange, idx.mu.pointers[i].TimeRange))
+				return span.Error(NewRangeWriteConflictError(p.TimeRange, conflict))
 			}
 			insertAt = i + 1
 		}
@@ -70,12 +71,15 @@ func (idx *index) insert(ctx context.Context, p pointer, persist bool) error {
 	idx.totalSize.Add(int64(p.size))
 	idx.persistHead = min(idx.persistHead, insertAt)
 
-	idx.mu.Unlock()
 	if !persist {
+		idx.mu.Unlock()
 		return nil
 	}
 
+	// prepare reads the pointers and the persist head, so it must run before the lock
+	// is released (as in update).
 	persistPointers := idx.indexPersist.prepare(idx.persistHead)
+	idx.mu.Unlock()
 	return persistPointers()
 }
 
